@@ -223,6 +223,13 @@ def replay(c):
     import copy
     if c.get('kind') == 'observer':
         return replay_observer(c)
+    if c.get('kind') == 'replicas':
+        import os
+        import sys
+        sys.path.insert(0, os.path.dirname(os.path.dirname(os.path.abspath(__file__))))
+        from harness import transcripts
+        bad, r = transcripts.check_replicas(c['session'], c.get('seed', 0))
+        return bool(bad), f'session {c["session"]}: ' + '; '.join(bad[:3])
     if c.get('kind') == 'available':
         return replay_available(c)
     if c.get('kind') == 'available_state':
